@@ -217,6 +217,13 @@ func (gr *goRef) parseSource(fi int, src []byte) {
 						for _, f := range st.Fields.List {
 							for _, n := range f.Names {
 								ids[s.Name.Name+"."+n.Name] = true
+								if _, twice := flds[s.Name.Name+"."+n.Name]; twice {
+									// protoc-gen-go itself declares the name twice (a oneof frees the getter
+									// name an earlier field reserved): which declaration belongs to which
+									// proto field cannot be read off the source - the type is not compared
+									flds[s.Name.Name+"."+n.Name] = "\x00ambiguous"
+									continue
+								}
 								flds[s.Name.Name+"."+n.Name] = types.ExprString(f.Type)
 							}
 						}
